@@ -83,6 +83,11 @@ def loop_facts(fn, hash_t, cap_t):
     for d, (c, vm) in te.switch_term.items():
         c = strip(c)
         if c[0] == "bin" and c[1] in ("Lt", "Le", "Gt", "Ge") and "psl" in show(c):
+            # mirrored spelling: `walked > stored.psl` is `stored.psl < walked`
+            if c[1] in ("Gt", "Ge") and ".psl" in show(c[3]) and ".psl" not in show(c[2]):
+                c = ("bin", {"Gt": "Lt", "Ge": "Le"}[c[1]], c[3], c[2]) + tuple(c[4:])
+            elif c[1] in ("Gt", "Ge") and ".psl" not in show(c[3]) and ".psl" in show(c[2]):
+                pass
             tests.add(canon(fn, c, roles))
     out["cmp"] = sorted(tests)
     return out
